@@ -297,6 +297,8 @@ var apiSeq uint64
 // argument vector, so that the same invocation always sees the same values
 // (replay) while a file processed alone and the same file processed in a group
 // see different ones: up to 48 days apart, odd and even seconds alike.
+func init() { world.OnMainGoroutine = simrt.OnMain }
+
 func setClockAndRand(seed uint64, args []string) {
 	h := world.Mix(seed, 0x636c6f636b)
 	for _, a := range args {
